@@ -179,16 +179,17 @@ def translate_c_to_sympy(source_circuit):
 
     # Map the gate information properly.
     for gate in reversed(source_circuit._gates):
-        # If the parameter is a string, we use it as a variable.
-        if gate.parameter and isinstance(gate.parameter, str):
-            gate.parameter = symbols(gate.parameter, real=True)
+        # If the parameter is a string, we use it as a variable (the source gate is left untouched).
+        parameter = gate.parameter
+        if parameter and isinstance(parameter, str):
+            parameter = symbols(parameter, real=True)
 
         if gate.name in {"H", "X", "Y", "Z"}:
             target_circuit *= GATE_SYMPY[gate.name](gate.target[0])
-        elif gate.name in {"T", "S"} and gate.parameter == "":
+        elif gate.name in {"T", "S"} and parameter == "":
             target_circuit *= GATE_SYMPY[gate.name](gate.target[0])
         elif gate.name in {"PHASE", "RX", "RY", "RZ"}:
-            target_circuit *= GATE_SYMPY[gate.name](gate.target[0], gate.parameter)
+            target_circuit *= GATE_SYMPY[gate.name](gate.target[0], parameter)
         elif gate.name in {"CNOT", "CH", "CX", "CY", "CZ", "CS", "CT"} and len(gate.control) > 1:
             name = "MCX" if gate.name in {"CNOT", "CX"} else gate.name
             target_circuit *= GATE_SYMPY[name](tuple(gate.control), gate.target[0])
@@ -198,7 +199,7 @@ def translate_c_to_sympy(source_circuit):
             target_circuit *= GATE_SYMPY[gate.name](gate.target[0], gate.target[1])
         elif gate.name in {"CRX", "CRY", "CRZ", "CPHASE"}:
             control = gate.control[0] if len(gate.control) == 1 else tuple(gate.control)
-            target_circuit *= GATE_SYMPY[gate.name](control, gate.target[0], gate.parameter)
+            target_circuit *= GATE_SYMPY[gate.name](control, gate.target[0], parameter)
         else:
             raise ValueError(f"Gate '{gate.name}' not supported on backend SYMPY")
 
